@@ -292,6 +292,9 @@ def run(ctx):
     check_tree_counters(ctx)
     check_ingest_lock(ctx)
     check_schedules(ctx, sample)
+    # every tree of the database (new, recovered, meta) must be wired to the same two counters in the same roles (shared obligations, see wiring.py)
+    from . import wiring
+    wiring.check_all(ctx)
     for o in ctx.obligations:
         ctx.samples.append(o.as_dict())
     return ctx.finish()
